@@ -18,7 +18,10 @@
 
   Inputs are syntax trees (the parser is modelled elsewhere): the journal parsed from the
   requesting document, the cursor, the workspace's resolved journal (nil when there is no
-  workspace or it has no root), the per-URI resolved journal stored by publishDiagnostics.
+  workspace or it has no root), the per-URI resolved journal stored by publishDiagnostics
+  (upstream now drops it on every didChange and stores it only for the current version, so it is
+  nil from a change until that change's diagnostics task has resolved the includes: in that
+  window, without a workspace, Hover aggregates over the document alone).
 
   Facts read off the code and used below:
   * `HoverCommodity` is declared but no code path produces it: hovering the commodity of an amount
